@@ -86,12 +86,16 @@ type vManifestKit struct {
 	prov   string
 }
 
-func vMakeKit() (*vManifestKit, error) {
+func vMakeKit() (*vManifestKit, error) { return vMakeKitFor(31, "") }
+
+// vMakeKitFor builds the three manifests for one deployment; tag makes the
+// images (hence the version hashes) differ between deployments.
+func vMakeKitFor(dseq uint64, tag string) (*vManifestKit, error) {
 	k := &vManifestKit{}
 	k.owner = sdk.AccAddress([]byte("verif-tenant-0000000")).String()
 	k.prov = sdk.AccAddress([]byte("verif-provider-00000")).String()
-	k.did = dtypes.DeploymentID{Owner: k.owner, DSeq: 31}
-	specs := []struct{ img, cpu string }{{}, {"nginx:1", "100m"}, {"nginx:2", "100m"}, {"nginx:1", "200m"}}
+	k.did = dtypes.DeploymentID{Owner: k.owner, DSeq: dseq}
+	specs := []struct{ img, cpu string }{{}, {"nginx:1" + tag, "100m"}, {"nginx:2" + tag, "100m"}, {"nginx:1" + tag, "200m"}}
 	for i := 1; i <= 3; i++ {
 		s, err := sdl.Read([]byte(fmt.Sprintf(vSDLTemplate, specs[i].img, specs[i].cpu)))
 		if err != nil {
@@ -732,7 +736,7 @@ func TestVerif_C20(t *testing.T) {
 	res := vs.NewResult("C20", "exploration",
 		"all enabled sequences over {lease won, lease removed, submit m1 (matches the on-chain version) / m2 (other version) / m3 (other version and resources), version update to v2 / v3, chain fetch ok / error, deployment closed} up to a length bound, each on a fresh real manifest.manager stepped through its loop-top hook with a scripted chain fetch; replies are collected on channels of capacity 4, ManifestReceived events by an independent bus subscriber (flushed with a marker after every step), and judged against a reference model: exactly one reply per submission, no outstanding submission when idle, announce only with a lease, after the fetch, a validated manifest, the latest one; acceptance implies an announcement of that hash. distinct = event sequences")
 	res.Assume("the scripted chain query client and hostname service are the environment; manifests are derived from SDL documents by the repository's own sdl package")
-	if vs.ReplayFile() == "" {
+	if vs.ReplayFile() == "" && vs.Stage() != "service" {
 		for _, f := range []string{"sequences", "submissions", "accepted", "rejected_wrong_version", "rejected_invalid", "rejected_no_lease", "rejected_fetch_error", "rejected_not_running", "announcements", "seq_with_version_update", "seq_with_lease_removed"} {
 			res.Floor(f, 1)
 		}
@@ -806,6 +810,10 @@ func TestVerif_C20(t *testing.T) {
 			t.Fatalf("replay: %v", err)
 		}
 		judge(r.Seq)
+		return
+	}
+	if vs.Stage() == "service" {
+		vManifestServiceStage(res)
 		return
 	}
 	if vs.Stage() == "race" {
